@@ -717,3 +717,35 @@ def alias_returns_max(W, X):
         matrix
     '''
     return max(W, X)
+
+
+# ------------------------------------------------------------------ statements after a flag-guarded raise belong to the other branch only
+def bad_guard_then_write(W, copy=True):
+    '''
+    Parameters
+    ----------
+    W : NxN np.ndarray
+        matrix
+    copy : bool
+        flag
+    '''
+    if not copy:
+        raise ValueError('needs a copy')
+    np.fill_diagonal(W, 0)
+    return W
+
+
+def ok_guard_then_copy(W, copy=True):
+    '''
+    Parameters
+    ----------
+    W : NxN np.ndarray
+        matrix
+    copy : bool
+        flag
+    '''
+    if not copy:
+        raise ValueError('only copies')
+    W = W.astype(float)
+    W[0, 0] = 1
+    return W
